@@ -224,6 +224,10 @@ func zzWalSyncPipelineOnce(n int) {
 	wi, err := newWal("zz", 1, opts, &zzCommit{off: 1 << 40}, &zzWClock{}, time.Hour)
 	vAssert("open-ok", err == nil)
 	w := wi.(*wal)
+	// observe what each flush really covers (the segment's content when the flush STARTED); the flush is a
+	// schedule point, so appends can land while it is in flight
+	spy := &zzFlushSpy{ReadWriteSegment: w.currentSegment, covered: -1}
+	w.currentSegment = spy
 	done := make(chan int64, n+1)
 	for i := 0; i < n; i++ {
 		off := int64(i)
@@ -233,13 +237,16 @@ func zzWalSyncPipelineOnce(n int) {
 			}
 			vAssert("sync-callback-ok", err == nil)
 			vAssert("synced-offset-covers-the-acknowledged-entry", w.LastOffset() >= off)
+			vAssert("acknowledged-entry-was-covered-by-a-completed-flush", spy.covered >= off)
 			done <- off
 		})
+		vAssert("readers-never-see-more-than-what-was-flushed", w.LastOffset() <= spy.covered)
 	}
 	for i := 0; i < n; i++ {
 		<-done
 	}
 	vAssert("all-synced", w.LastOffset() == int64(n-1))
+	vAssert("synced-offset-never-ahead-of-a-completed-flush", w.LastOffset() <= spy.covered)
 	zzSegCap = 2
 	_ = w.Close()
 }
@@ -327,4 +334,20 @@ func ZZWalReaderTail(n, k int) {
 	_ = rr.Close()
 	_ = w.Close()
 	vReach("end")
+}
+
+type zzFlushSpy struct {
+	ReadWriteSegment
+	covered int64
+}
+
+func (f *zzFlushSpy) Flush() error {
+	c := f.ReadWriteSegment.LastOffset()
+	vYield("wal.flush")
+	vSettle(3) // natively: the flush takes a moment, appends land meanwhile
+	err := f.ReadWriteSegment.Flush()
+	if err == nil && c > f.covered {
+		f.covered = c
+	}
+	return err
 }
